@@ -31,8 +31,16 @@ def main():
         for kw in job["calls"]:
             try:
                 r = fn(fl, FA, **kw)
-            except Exception as ex:  # a replay helper that crashes is a checker fault, not a violation
-                r = {"failed": False, "crash": f"{type(ex).__name__}: {ex}", "trace": traceback.format_exc()[-1500:]}
+            except BaseException as ex:  # noqa
+                tb = traceback.extract_tb(ex.__traceback__)
+                inner = tb[-1].filename if tb else ""
+                in_pkg = [f for f in tb if os.path.abspath(f.filename).startswith(os.path.join(os.path.abspath(repo), "fuzzylite"))]
+                if in_pkg and not isinstance(ex, (KeyboardInterrupt, SystemExit)):
+                    # the REAL code raised where the helper expected none: that is a failing case, reported with the exception
+                    r = {"failed": True, "expected": "no exception from the library on this case", "observed": f"{type(ex).__name__}: {ex}",
+                         "call": f"raised at {os.path.relpath(in_pkg[-1].filename, repo)}:{in_pkg[-1].lineno} ({in_pkg[-1].name})", "trace": traceback.format_exc()[-1200:]}
+                else:   # a replay helper that crashes on its own is a checker fault, not a violation
+                    r = {"failed": False, "crash": f"{type(ex).__name__}: {ex}", "trace": traceback.format_exc()[-1500:]}
             r["kwargs"] = kw
             out["results"].append(r)
             if job.get("first_failure") and r.get("failed"):
